@@ -205,10 +205,14 @@ def drive_b(rec, ks, quick):
                     ev["a"] = [to_words(int(A[j, c])) for j in range(asz)]
                 events.append(ev)
         # a large dimension (the vector loops may treat the coefficients in blocks): sampled columns, both halves
+        volume = (k in (19, 62)) if quick else (k % 4 == 3)      # N * a_size beyond 2^20 coefficients (blocking over both axes)
         if k in (1, 19, 44, 62) or not quick:
             nbig = 4096 if (quick or k % 3) else 16384
-            modsb, epsb = entry_points(L, nbig)
             asz, rsz = rng.choice([(2, 2), (3, 2), (3, 3), (4, 2)])
+            if volume:
+                nbig, asz = rng.choice([(65536, 18), (32768, 36), (16384, 70), (8192, 135), (4096, 270), (2048, 530)])
+                rsz = rng.choice([asz, asz - 1, asz // 2, 2])
+            modsb, epsb = entry_points(L, nbig)
             A = patterns(k, asz, nbig, rng)
             variant, mk = epsb[k % len(epsb)]
             rs = range_for(asz, rng) if variant == "range" else None
@@ -219,6 +223,8 @@ def drive_b(rec, ks, quick):
                     rec.violation("%s[%s] N=%d k=%d a_size=%d res_size=%d: %s" % (variant, mk, nbig, k, asz, rsz, why), {"variant": variant, "k": k})
                 else:
                     cols = sorted(set([0, 1, 2047, 2048, 2049, nbig // 2 - 1, nbig // 2, nbig - 1] + [rng.randrange(nbig) for _ in range(40)]))
+                    if volume:
+                        cols = sorted(set([0, 1023, 1024, nbig - 1025, nbig - 1] + [rng.randrange(nbig) for _ in range(11)]))
                     for c in cols:
                         ev = {"e": "Norm", "k": k, "rs": rsz, "res": [to_words(int(got[j, c])) for j in range(rsz)],
                               "_what": "%s[%s] N=%d col=%d (large dimension)" % (variant, mk, nbig, c)}
